@@ -299,6 +299,37 @@ theorem speedAlgT_read (L : Laws I n rd co) (g : GOps V) (s : σ) (hI : I s) (hN
     · simp only [h1, if_false]
       exact speedBetweenT_read L g s hI _ _ (by omega) (by omega)
 
+/-- `computeCurvAbsBetweenTwoPoints(track)` after `k` legs, as a function of the coordinate columns -/
+def curvF (g : GOps V) (X Y : List V) : Nat → V
+  | 0 => g.zero
+  | k + 1 => g.add (curvF g X Y k)
+      (match X[k]?, Y[k]?, X[k + 1]?, Y[k + 1]? with
+        | some xi, some yi, some xj, some yj => norm2D g (g.sub xj xi) (g.sub yj yi)
+        | _, _, _, _ => g.nan)
+
+/-- `computeCurvAbsBetweenTwoPoints` only reads, and returns the accumulated legs of the current coordinates -/
+theorem curvAbsT_read (L : Laws I n rd co) (g : GOps V) (s : σ) (hI : I s) :
+    (curvAbsT g : M σ V) s = (.ok (curvF g (co s .x) (co s .y) (n s - 1)), s) := by
+  unfold curvAbsT
+  rw [bind_ok_eq (L.size s)]
+  have key := triple_foldL_aux
+    (fun (acc : V) i => (dist2DT g i (i + 1) : M σ V) >>= fun d => pure (g.add acc d))
+    (fun k (acc : V) s' => s' = s ∧ acc = curvF g (co s .x) (co s .y) k)
+    (List.range (n s - 1)) 0 g.zero
+    (by
+      intro i hi acc s' ⟨hs, hacc⟩
+      subst hs
+      have hi' : i < n s' - 1 := by simpa using hi
+      have hel : (List.range (n s' - 1))[i] = i := by simp
+      rw [hel]
+      obtain ⟨xi, yi, xj, yj, h1, h2, h3, h4, e⟩ := dist2DT_read L g s' hI i (i + 1) (by omega) (by omega)
+      refine ⟨_, s', bind_ok_eq e, rfl, ?_⟩
+      simp only [Nat.zero_add, curvF, h1, h2, h3, h4, hacc])
+  obtain ⟨x, s', e, hs, hx⟩ := key s ⟨rfl, rfl⟩
+  subst hs
+  rw [e, hx]
+  simp
+
 /-! ### computeAbsCurv and estimate_speed -/
 
 /-- `computeAbsCurv` on a table that lists neither `ds` nor `abs_curv`: the value returned is the integral of the
